@@ -428,8 +428,8 @@ MUTANTS = [
      "old": "            self._req_attempts += 1\n            # add our handlers. Only the payloads of this attempt can fail (or\n            # be retried) from here on: the others have been acknowledged.\n            retried = {tp: p for tp, p in payloadsByTopicPart.items() if p in payloads}\n            d.addBoth(self._handle_send_response, retried, deferredsByTopicPart)\n",
      "new": "            retried = {tp: p for tp, p in payloadsByTopicPart.items() if p in payloads}\n            d.addBoth(self._handle_send_response, retried, deferredsByTopicPart)\n            self._req_attempts += 1\n",
      "expect": "C09.R5", "note": "seeded C09-4"},
-    {"id": "limit-off-by-one", "file": "producer.py", "old": "            if self._req_attempts >= self._max_attempts:\n                # No, no retries left",
-     "new": "            if self._req_attempts > self._max_attempts:\n                # No, no retries left", "expect": "C09.R5"},
+    {"id": "limit-off-by-one", "file": "producer.py", "old": "            if self.stopping or self._req_attempts >= self._max_attempts:\n                # No, no retries left",
+     "new": "            if self.stopping or self._req_attempts > self._max_attempts:\n                # No, no retries left", "expect": "C09.R5"},
     {"id": "backoff-not-growing", "file": "producer.py",
      "old": "            self._retry_interval *= self.RETRY_INTERVAL_FACTOR\n            # Cancel the callLater", "new": "            # Cancel the callLater",
      "expect": "C09.R6"},
